@@ -540,6 +540,9 @@ class GeminiServerProtocol(asyncio.Protocol):
 
     def _process_titan_upload(self) -> None:
         """Process the Titan upload through the upload handler."""
+        # Dispatch at most once per connection: later reads must not re-trigger it
+        self.awaiting_titan_content = False
+
         if not self.upload_handler or not self.titan_request:
             self._send_error_response(
                 StatusCode.TEMPORARY_FAILURE, "Upload handler error"
